@@ -270,22 +270,29 @@ class Model:
 # ------------------------------------------------------------------------------------------ one configuration
 def run_config(chk, crash, model, cfgv, stats, pool):
     L, N, opts, sizesA, sizesB = cfgv['L'], cfgv['N'], cfgv['opts'], cfgv['sizesA'], cfgv['sizesB']
-    base = {'L': L, 'N': N, 'options': opts, 'phaseA_sizes': sizesA, 'phaseB_sizes': sizesB,
-            'how': 'h_crash <dir> L N options 0 <phaseA sizes> (untraced), then h_crash <dir> L N options <first id> <phaseB sizes> under strace'}
+    preseed = cfgv.get('preseed', [])
+    base = {'L': L, 'N': N, 'options': opts, 'phaseA_sizes': sizesA, 'phaseB_sizes': sizesB, 'preseed': preseed,
+            'how': 'preseed = rotated files app.<today>.<index>.log[.gz] holding record r<id> put into the directory first (a directory left by '
+                   'earlier runs); h_crash <dir> L N options 0 <phaseA sizes> (untraced), then h_crash <dir> L N options <first id> <phaseB sizes> under strace'}
     top = tempfile.mkdtemp(prefix='c10_', dir='/tmp')
     try:
         tmpl = os.path.join(top, 'tmpl')
+        os.makedirs(tmpl)
+        today = time.strftime('%Y-%m-%d')
+        for idx, gz, rid in preseed:
+            data = b'r%05d\n' % rid
+            with open(os.path.join(tmpl, 'app.%s.%d.log%s' % (today, idx, '.gz' if gz else '')), 'wb') as f:
+                f.write(pygzip.compress(data) if gz else data)
+        d_pre, _ = read_dir(tmpl)
         if sizesA:
             if plain_run(crash, tmpl, L, N, opts, 0, sizesA) != 0:
                 chk.broke('phase A run failed', dict(base, kind='harness')); return
-        else:
-            os.makedirs(tmpl)
         d_tmpl, odd = read_dir(tmpl)
         recsA = [(i, s) for i, s in enumerate(sizesA)]
         recsB = [(len(sizesA) + i, s) for i, s in enumerate(sizesB)]
         startB = len(sizesA)
         # model of phase A from the empty directory, of phase B from the REAL directory phase A left
-        out = model.ask([Model.h_line(L, N, opts, None, '', recsA), Model.h_line(L, N, opts, None, show_dir(d_tmpl), recsB)])
+        out = model.ask([Model.h_line(L, N, opts, None, show_dir(d_pre), recsA), Model.h_line(L, N, opts, None, show_dir(d_tmpl), recsB)])
         toksA, statesA, rest = Model.split_h(out)
         toksB, statesB, _ = Model.split_h(rest)
         if sizesA and not same_dir(parse_model_dir(statesA[-1][0]), d_tmpl):
@@ -343,7 +350,13 @@ def run_config(chk, crash, model, cfgv, stats, pool):
                 continue
             # when the real step list is not the model's, crash points cannot be aligned: no directory comparison,
             # and the oracle gets everything the model's retention ever removes
-            mdir, mgone = statesB[k] if aligned else (None, statesB[-1][1])
+            if aligned:
+                mdir, mgone = statesB[k]
+            else:
+                # grant what the model's retention has removed once the rotation of the first unflushed write is complete
+                nxt = max([i for i in r['flushed'] if i >= startB], default=startB - 1) + 1
+                pos = [j for j, t in enumerate(toksB) if t.split(':', 1)[1][:-1] == 'A%d' % nxt]
+                mdir, mgone = None, statesB[pos[0] if pos else -1][1]
             rep.update(directory_after_crash=show_dir(r['dir']), model_directory=mdir, flushed_ids=r['flushed'])
             if aligned and not same_dir(parse_model_dir(mdir), r['dir']):
                 stats['crash_dir_mismatch'] += 1
@@ -473,6 +486,13 @@ def configs(chk):
     for opts in (0, 4, 1, 5):
         for (L, N) in ((8, 3), (8, 0), (20, 2)):
             out.append({'L': L, 'N': N, 'opts': opts, 'sizesA': [7, 7], 'sizesB': [7] * 6})
+    # a sink started on a directory that already holds today's rotated files 8 and 9: its next rotations cross
+    # index 10, where name order and rotation order part ("...10..." < "...8..."); retention may only take the oldest
+    out.append({'L': 8, 'N': 3, 'opts': 0, 'sizesA': [], 'sizesB': [7] * 5, 'preseed': [[8, False, 9008], [9, False, 9009]]})
+    out.append({'L': 8, 'N': 4, 'opts': 4, 'sizesA': [], 'sizesB': [7] * 5, 'preseed': [[8, False, 9008], [9, True, 9009]]})
+    if thorough:
+        out.append({'L': 20, 'N': 3, 'opts': 5, 'sizesA': [7], 'sizesB': [7] * 8, 'preseed': [[7, True, 9007], [8, True, 9008], [9, True, 9009]]})
+        out.append({'L': 8, 'N': 2, 'opts': 1, 'sizesA': [], 'sizesB': [7] * 4, 'preseed': [[98, False, 9098], [99, False, 9099]]})
     extra = 40 if thorough else 1
     for _ in range(extra):
         L = rng.choice((8, 15, 20, 30, 64))
@@ -536,7 +556,7 @@ def replay(path):
     stats = {'configs': 0, 'trace_steps': 0, 'crash_points': 0, 'restarts': 0, 'failures': 0, 'oracle_evaluations': 0, 'oracle_falsified': 0,
              'crash_dir_mismatch': 0, 'restart_dir_mismatch': 0, 'skipped_midnight': 0, 'step_kinds': {}, 'failure_kinds': {}, 'samples': [], 'reported': set()}
     with ThreadPoolExecutor(max_workers=16) as pool:
-        run_config(chk, crash, model, {'L': r['L'], 'N': r['N'], 'opts': r['options'], 'sizesA': r['phaseA_sizes'], 'sizesB': r['phaseB_sizes'], 'idx': 0}, stats, pool)
+        run_config(chk, crash, model, {'L': r['L'], 'N': r['N'], 'opts': r['options'], 'sizesA': r['phaseA_sizes'], 'sizesB': r['phaseB_sizes'], 'preseed': r.get('preseed', []), 'idx': 0}, stats, pool)
     print('recorded       ', {k: r[k] for k in r if k not in ('how',)})
     for what, obj in chk.failing:
         print('implementation ', what)
